@@ -205,11 +205,14 @@ def _alarm(signum, frame):
 
 
 def guarded_run(prop, case):
-    """run_case with a real-time watchdog: a case normally takes milliseconds;
-    two minutes without returning means the code under test spins without ever
-    touching the simulated transport."""
+    """run_case with a real-time watchdog: one simulated execution normally takes milliseconds;
+    two minutes without finishing one means the code under test spins without ever touching
+    the simulated transport (the watchdog is re-armed at the start of every execution)."""
     signal.signal(signal.SIGALRM, _alarm)
     signal.alarm(CASE_WALL_LIMIT)
+    from . import simnet
+    # the limit applies to ONE simulated execution: cases of the fault enumerations run thousands
+    simnet.ON_RUN = lambda: signal.alarm(CASE_WALL_LIMIT)
     try:
         return prop.run_case(case)
     except WallClockHang as hang:
